@@ -211,6 +211,8 @@ pub struct Finding {
     pub prop: String,
     pub key: String,
     pub text: String,
+    /// recorded failing input, relative to the verification directory
+    pub replay: Option<PathBuf>,
 }
 
 #[derive(Clone, Debug, Default)]
@@ -233,15 +235,18 @@ impl KnownFindings {
                     };
                     let mut prop = String::new();
                     let mut key = String::new();
+                    let mut replay = None;
                     for tok in head.split_whitespace() {
                         if let Some(v) = tok.strip_prefix("property=") {
                             prop = v.to_string();
                         } else if let Some(v) = tok.strip_prefix("key=") {
                             key = v.to_string();
+                        } else if let Some(v) = tok.strip_prefix("replay=") {
+                            replay = Some(verif_dir().join(v));
                         }
                     }
                     if !prop.is_empty() && !key.is_empty() {
-                        open.push(Finding { prop, key, text });
+                        open.push(Finding { prop, key, text, replay });
                     }
                 }
             }
@@ -388,15 +393,8 @@ impl Report {
     /// run and to match entries of KNOWN_FINDINGS.txt); `detail` is written to the replay file.
     /// Returns true if it was counted as a new violation (false: known finding or duplicate).
     pub fn fail(&self, key: &str, what: &str, detail: J) -> bool {
-        if let Some(f) = self.known.get(&self.ctx.prop, key) {
-            let mut i = self.inner.lock().unwrap();
-            let e = i
-                .known_hits
-                .entry(key.to_string())
-                .or_insert_with(|| (f.text.clone(), 0));
-            e.1 += 1;
-            return false;
-        }
+        // Known findings suppress nothing here: their regions are excluded from generation by
+        // construction and their recorded inputs are replayed by `run_probes`.
         let mut i = self.inner.lock().unwrap();
         if !i.violation_keys.insert(key.to_string()) {
             return false;
@@ -431,6 +429,23 @@ impl Report {
         true
     }
 
+    /// Replays the recorded input of every open known finding of this property through `replay`
+    /// (the same function `--replay` uses). Still failing: a KNOWN-FINDING line is printed by
+    /// `finish`; passing: a note (the entry can be turned into a `fixed:` line).
+    pub fn run_probes(&self, replay: &dyn Fn(&J) -> Result<(), (String, String)>) {
+        if self.ctx.worker.is_some() || self.ctx.replay.is_some() {
+            return;
+        }
+        for f in self.known.open.iter().filter(|f| f.prop == self.ctx.prop) {
+            let Some(path) = &f.replay else { continue };
+            let j = read_replay(path);
+            match replay(&j["case"]) {
+                Err(_) => self.known_probe_hit(&f.key),
+                Ok(()) => println!("NOTE: known finding property={} key={} no longer reproduces on this tree", f.prop, f.key),
+            }
+        }
+    }
+
     /// Records that the recorded input of a known finding still fails (probe).
     pub fn known_probe_hit(&self, key: &str) {
         if let Some(f) = self.known.get(&self.ctx.prop, key) {
@@ -448,10 +463,8 @@ impl Report {
         let i = self.inner.lock().unwrap();
         let wall = self.start.elapsed().as_secs_f64();
         for (key, (text, n)) in &i.known_hits {
-            println!(
-                "KNOWN-FINDING: property={} key={} {} (hit {} times)",
-                self.ctx.prop, key, text, n
-            );
+            let _ = n;
+            println!("KNOWN-FINDING: property={} key={} {}", self.ctx.prop, key, text);
         }
         let mut coverage = Map::new();
         coverage.insert("evaluations".into(), json!(i.evaluations));
